@@ -61,7 +61,7 @@ def gen_params(ctx, run, entry=None):
     n_ops = wl.choice([5, 8, 12, 20, 30, 40])
     policy = wl.choice(core.POLICIES)
     sib_ok = wl.random() < ctx.get('p_sibling', 0) and e.get('sibling') is not None
-    ops = histories.gen_history(wl, e['meta'], n_ops, two_threads=two, xarray_ok=xr_ok, sibling_ok=sib_ok)
+    ops = histories.gen_history(wl, e['meta'], n_ops, two_threads=two, xarray_ok=xr_ok, sibling_ok=sib_ok, nudge=True)
     pre_p = wl.choice([0, 0.01]) if two else 0     # half of the two-caller histories pre-empt at line level
     return e, two, policy, ops, ([pre_p, f"{ctx['seed']}:{run}"] if pre_p else None)
 
@@ -131,13 +131,13 @@ def one_run(ctx, run, ops=None, trace=None, entry=None, preempt='gen'):
             want = truth[(kind, repr(op[2]))]
             got = outcomes[i]
             seen_calls[(op[1], repr(op[2]))] += 1
-            if got != want:
+            if got != want and not (got[0] == 'exc' and want[0] == 'exc'):
+                # (two exceptions of different classes are not a different *returned value*: the property
+                # speaks of values; which error a refused call reports is not compared)
                 if got[0] == 'exc' and want[0] == 'ok':
                     cls = 'raised:' + got[1]
                 elif got[0] == 'ok' and want[0] == 'exc':
                     cls = 'returned-instead-of-' + want[1]
-                elif got[0] == 'exc':
-                    cls = f'raised:{got[1]}-instead-of-{want[1]}'
                 else:
                     cls = 'wrong-value'
                 rec['violation'] = _viol(e, ops, i, cls, f'op {i} {op[2]} via {openers[op[1]]} gave {got}, fresh '
